@@ -297,6 +297,10 @@ DecodeO(x, chain, orc) ==
     IN S
 Decode(x, chain) == DecodeO(x, chain, NoOracle)
 
+\* A chain of zero filters is the identity: Decode(x, <<>>) = Good(x) (the fold above over no stage).
+\* ISO 32000-1 Table 5 allows it explicitly ("an array of zero, one or several names"); it can be
+\* written as no Filter entry, as /Filter null (7.3.9: the same as no entry) or as /Filter [].
+
 \* Reference encoder of one stage.  ch = the encoder's free choices
 \* [fts (filter type per row), bs (stored block size), useZ, reset (LZW clear threshold)].
 EncodeStage(x, st, ch) ==
@@ -349,6 +353,13 @@ ImplA85Decode(enc, devNul) ==
     IF ~devNul \/ ~(\E i \in 1..Len(enc) : enc[i] = 0) THEN A85Decode(enc)
     ELSE LET cut == SubSeq(enc, 1, (CHOOSE i \in 1..Len(enc) : enc[i] = 0 /\ \A j \in 1..(i - 1) : enc[j] # 0) - 1)
          IN A85Decode(cut \o EOD85)
+
+\* Stream::decompressed_content on a chain of zero filters.  ff = how the chain is written:
+\* "absent" | "null" -> the call fails (no usable Filter entry; get_plain_content returns the content),
+\* "empty" (/Filter []) -> the loop over the filters never runs;
+\*   devEmpty  the result is then the *empty* output buffer instead of the content
+ImplDecodeZero(x, ff, devEmpty) ==
+    IF ff = "empty" THEN (IF devEmpty THEN Good(<<>>) ELSE Good(x)) ELSE Fail(x)
 
 \* parms = the one dictionary lopdf hands to every Flate/LZW stage, or DefaultParms when it found none
 ImplUnpredict(x, p, devAvg) ==
